@@ -34,7 +34,10 @@ META = {
     "rule": "seeded scenarios: 2-8 files under src/ in nested directories (names with spaces, several dots, non-ASCII, "
             "hidden, upper-case extension, a directory named d.lua), non-Lua files and bystanders whose extension only looks "
             "like a Lua one (init.lua~, chunk.luac, impl.lua_old, x.luax, lua, *.lua.bak, BIG.LUA), single-file projects, an "
-            "existing output directory with a dotted name (dist.v2, build/pkg-1.2.0), quiet sources (empty, newline only, "
+            "existing output directory with a dotted name (dist.v2, build/pkg-1.2.0), a single-file matrix (input extension lua, "
+            "luau, txt, json, none, LUA, lua.bak x output none, new path with lua/luau/other/version-like extension, existing "
+            "file with and without extension, existing plain and dotted directory, new extensionless path, trailing slash), "
+            "quiet sources (empty, newline only, "
             "blanks only, comment only - valid empty chunks - and a lone `;`, which Luau rejects), on disk invalid UTF-8 "
             "inside a string literal and Latin-1 in a comment (valid Lua after a lossy decoding), faulty files (syntax error, missing "
             "require under a bundle configuration, invalid UTF-8 and unwritable destination on disk), 9 input/output "
@@ -93,6 +96,8 @@ def expected_items(rec, run, disk):
     """(source, output) pairs a correct collect_work produces - independent of the model"""
     before = run["before"]
     inp, out = rec["input"], rec["output"]
+    if out is not None:
+        out = out.rstrip("/")          # `out/newdir/` and `out/newdir` are the same path
     dirs = set(run.get("dirs_before", []))
     for p in before:
         parts = p.split("/")
@@ -140,6 +145,8 @@ def oracle(rec, run, disk):
     if removed:
         problems.append(("a file disappeared", {"paths": removed[:4]}))
     inp, out = rec["input"], rec["output"]
+    if out is not None:
+        out = out.rstrip("/")
     if out is not None and not under(inp, out) and not under(out, inp) and out != inp:
         touched = [p for p in before if under(inp, p) and before[p] != after.get(p)]
         if touched:
